@@ -29,8 +29,8 @@ func fmtTime(t time.Time, zoneName bool) string {
 	return s
 }
 
-func f32(f float32) string { return strconv.FormatFloat(float64(f), 'g', -1, 32) }
-func f64(f float64) string { return strconv.FormatFloat(f, 'g', 17, 64) }
+func f32(f float32) string { return strconv.FormatFloat(float64(f)+0, 'g', -1, 32) } // +0: -0 and 0 are the same value
+func f64(f float64) string { return strconv.FormatFloat(f+0, 'g', 17, 64) }
 
 // Exif flattens every observable of an exif2.Exif: all exported fields and
 // the accessor methods.  zoneName selects whether the name of the time zone
